@@ -28,6 +28,7 @@ type node struct {
 	dir    bool
 	size   int
 	old    bool   // older than the minimum age
+	future bool   // modification time after the start of the scan
 	link   string // symlink target (absolute), "" if none
 	linkTo *node
 }
@@ -102,6 +103,14 @@ func propScan(t *vt.T) {
 		case 0:
 			os.WriteFile(filepath.Join(out, rel), make([]byte, n.size), 0644)
 			stamp(filepath.Join(out, rel), n.old)
+			if t.Weighted("futureTime", 7, 1) == 1 {
+				// modified after the scan starts (a writer at work, a clock ahead): its age is
+				// negative, i.e. below every minimum age including zero
+				tm := now.Add(time.Hour)
+				os.Chtimes(filepath.Join(out, rel), tm, tm)
+				n.future = true
+				t.Class("file-time-after-scan-start")
+			}
 		case 1: // symlink to a file outside the tree (absolute target)
 			tgt := filepath.Join(outside, fmt.Sprintf("t%d", i))
 			os.WriteFile(tgt, make([]byte, n.size), 0644)
@@ -276,7 +285,7 @@ func eligible(n *node, minAge time.Duration, includeHidden bool, inc, ignore []s
 		decided["pattern"] = true
 		return false
 	}
-	if minAge > 0 && !n.old {
+	if n.future || (minAge > 0 && !n.old) {
 		decided["age"] = true
 		return false
 	}
